@@ -3,31 +3,42 @@
 (* C15 on the design: the closed forms of the code (C, C', C'', the        *)
 (* quadratic-form shortcuts) equal the brute-force sums over all possible  *)
 (* hyperedges, for EVERY u in {0..V}^(N x K) and every symmetric           *)
-(* w in {0..V}^(K x K) - one initial state per (u, w), no transitions      *)
-(* other than stuttering.  An algebraic identity, checked exhaustively.    *)
+(* w in {0..V}^(K x K).  One state per (u, w); a step rewrites one entry   *)
+(* of u or one symmetric pair of entries of w, so that the whole parameter *)
+(* space is reachable from the zero matrices and the exploration is shared *)
+(* by all TLC workers.  An algebraic identity, checked exhaustively.       *)
 (***************************************************************************)
 EXTENDS HyMMSBM, TLC
 CONSTANTS N, K, V
 VARIABLES u, w
 
-Init == /\ u \in [1..N -> [1..K -> 0..V]]
-        /\ w \in {m \in [1..K -> [1..K -> 0..V]] : Symmetric(m)}
-Next == UNCHANGED <<u, w>>
+Init == /\ u = [i \in 1..N |-> [a \in 1..K |-> 0]]
+        /\ w = [a \in 1..K |-> [b \in 1..K |-> 0]]
+Next == \/ \E i \in 1..N, a \in 1..K, v \in 0..V : u' = [u EXCEPT ![i][a] = v] /\ UNCHANGED w
+        \/ \E a \in 1..K, b \in 1..K, v \in 0..V :
+              /\ a <= b
+              /\ w' = [x \in 1..K |-> [y \in 1..K |-> IF {x, y} = {a, b} THEN v ELSE w[x][y]]]
+              /\ UNCHANGED u
 
 \* every set of sizes the API can ask for: all (2..D), non-dyadic (3..D), one size, arbitrary arrays
 DimSets == SUBSET (2..N)
 
-PoissonShortcut == \A e \in SUBSET (1..N) : Cardinality(e) >= 2 => REq(PoissonCF(u, w, e), RInt(Lambda(u, w, e)))
-ExpCountClosed  == \A d \in 2..N : REq(ExpCountCF(u, w, N, d), ExpCountBF(u, w, N, d))
-ExpDegClosed    == \A ds \in DimSets : \A i \in 1..N : REq(ExpDegCF(u, w, N, ds, i), ExpDegBF(u, w, N, ds, i))
-AvgDegClosed    == \A ds \in DimSets : REq(AvgDegCF(u, w, N, ds), AvgDegBF(u, w, N, ds))
+PoissonShortcut(Lam) == \A e \in SUBSET (1..N) : Cardinality(e) >= 2 => REq(PoissonCF(u, w, e), RInt(Lam[e]))
+ExpCountClosed(Lam)  == \A d \in 2..N : REq(ExpCountCF(u, w, N, d), ExpCountBF(Lam, N, d))
+ExpDegClosed(Lam)    == \A ds \in DimSets : \A i \in 1..N : REq(ExpDegCF(u, w, N, ds, i), ExpDegBF(Lam, N, ds, i))
+AvgDegClosed(Lam)    == \A ds \in DimSets : REq(AvgDegCF(u, w, N, ds), AvgDegBF(Lam, N, ds))
 \* the sum of the expected degrees counts every expected hyperedge once per member
-HandShake       == \A ds \in DimSets :
-                     LET E(i) == ExpDegBF(u, w, N, ds, i)   C(d) == RMul(RInt(d), ExpCountBF(u, w, N, d))
-                     IN REq(RSum(E, 1..N), RSum(C, ds))
+HandShake(Lam)       == \A ds \in DimSets :
+                          LET E(i) == ExpDegBF(Lam, N, ds, i)   C(d) == RMul(RInt(d), ExpCountBF(Lam, N, d))
+                          IN REq(RSum(E, 1..N), RSum(C, ds))
+
+\* Lam: the table of brute-force Poisson parameters of EVERY possible hyperedge, evaluated once per state
+ClosedFormsEqualBruteForce ==
+  LET Lam == TLCEval(LamTable(u, w))
+  IN PoissonShortcut(Lam) /\ ExpCountClosed(Lam) /\ ExpDegClosed(Lam) /\ AvgDegClosed(Lam) /\ HandShake(Lam)
+
 \* kappa_d = (hyperedges of size d through a given pair of nodes) x (node pairs inside one hyperedge of size d)
 KappaCountsPairs == \A d \in 2..N :
                       Kappa(N, d) = Cardinality({e \in EdgesOfSize(N, d) : {1, 2} \subseteq e}) * Cardinality(Pairs(1..d))
-
-ClosedFormsEqualBruteForce == PoissonShortcut /\ ExpCountClosed /\ ExpDegClosed /\ AvgDegClosed
+WSymmetric == Symmetric(w)
 =============================================================================
